@@ -672,6 +672,9 @@ func calculateTextEditRange(content string, pos protocol.Position, ctxType Compl
 	default:
 		return nil
 	}
+	if startByte > byteCol {
+		startByte = byteCol
+	}
 
 	startChar := lsputil.ByteOffsetToUTF16(line, startByte)
 	return &protocol.Range{
